@@ -30,6 +30,20 @@ Theorem C14_decode :
 Proof. exact read_bounds_cells. Qed.
 Print Assumptions C14_decode.
 
+(* The same two statements hold when the rows of the ragged arrays are taken over
+   range(number of cells) instead of numpy.unique(index) (the repair of F06a proposed for C06):
+   the theorems do not depend on which of the two the tree contains. *)
+Theorem C14_decode_rows_by_range :
+  forall (cs : cells), wf_cells cs ->
+  (forall ring, read_bounds_range (container_for cs true ring) (enc_nodes cs) = pad3 cs) /\
+  (forall rs, same_parts rs cs -> read_ring_range (container_for cs true (Some rs)) = Some (pad2 rs)).
+Proof.
+  intros cs W. split.
+  - intro ring. exact (read_bounds_range_cells cs ring W).
+  - intros rs S. exact (read_ring_range_cells cs rs W S).
+Qed.
+Print Assumptions C14_decode_rows_by_range.
+
 (* Without a part_node_count variable every cell has exactly one part (any node counts). *)
 Theorem C14_decode_single_part :
   forall ps : list (list Z),
@@ -97,6 +111,39 @@ Proof.
   intros rs S. exact (roundtrip_ring cs rs W H S).
 Qed.
 Print Assumptions C14_encode_decode.
+
+(* "...from which an independent decoder recovers the same cells": the decoder of Spec.v (written
+   from CF 7.5, sharing nothing with the reader model) applied to the written variables returns the
+   cells, and the written ring flags split by parts-per-cell are the ring flags. *)
+Theorem C14_independent_decoder :
+  forall cs : cells, wf_cells cs -> cs <> [] ->
+  (exists w, write (pad3 cs) None = Ok w /\ spec_decode_container (container_of w) (w_nodes w) = Some cs) /\
+  (forall rs, same_parts rs cs ->
+   exists w, write (pad3 cs) (Some (pad2 rs)) = Ok w /\
+             spec_decode_container (container_of w) (w_nodes w) = Some cs /\
+             option_map (split_by (map (@length (list Z)) cs)) (w_ring w) = Some rs).
+Proof. exact written_decodes. Qed.
+Print Assumptions C14_independent_decoder.
+
+(* The other direction: reading a conformant container and writing the result reproduces its raw
+   variables (part_node_count being dropped only when no cell has a second part and there is no ring). *)
+Theorem C14_decode_encode :
+  forall cs : cells, wf_cells cs -> cs <> [] ->
+  write (read_bounds (container_for cs true None) (enc_nodes cs)) None =
+    Ok {| w_nodes := enc_nodes cs; w_nc := enc_node_count cs;
+          w_pnc := if Nat.eqb (list_max (map (@length (list Z)) cs)) 1 then None
+                   else Some (enc_part_node_count cs);
+          w_ring := None |} /\
+  forall rs, same_parts rs cs ->
+  match read_ring (container_for cs true (Some rs)) with
+  | Some r =>
+      write (read_bounds (container_for cs true (Some rs)) (enc_nodes cs)) (Some r) =
+        Ok {| w_nodes := enc_nodes cs; w_nc := enc_node_count cs;
+              w_pnc := Some (enc_part_node_count cs); w_ring := Some (concat rs) |}
+  | None => False
+  end.
+Proof. exact decode_encode. Qed.
+Print Assumptions C14_decode_encode.
 
 (* Mutual consistency of whatever is written, for ANY bounds array (any shape, any pattern of
    missing data) and any ring array: node_count sums to the node dimension and has one entry per
